@@ -1359,8 +1359,15 @@ func (e *Exec) convert(st *State, v *smt.Term, from, to types.Type) *smt.Term {
 			return MkSlice(arr, smt.Const(64, 0), n, n)
 		}
 	}
-	if okf && e.W.SortOf(to) == AddrS || okt && e.W.SortOf(from) == AddrS {
-		e.W.Note("unsafe uintptr<->pointer conversion havocked")
+	if okt && e.W.SortOf(from) == AddrS {
+		// pointer -> uintptr: the numeric address is an uninterpreted but deterministic function of the
+		// pointer (the collector does not move objects; nil is 0)
+		w := e.W.SortOf(to).W
+		return smt.Ite(smt.Eq(v, NilAddr), smt.Const(w, 0), smt.App(fmt.Sprintf("ptr2int%d", w), smt.BV(w), v))
+	}
+	if okf && e.W.SortOf(to) == AddrS {
+		e.W.Note("unsafe uintptr->pointer conversion havocked")
+		e.approx++
 		return e.fresh("unsafe", e.W.SortOf(to))
 	}
 	unsupported("conversion %s -> %s", from, to)
